@@ -16,6 +16,7 @@ import Cjet.Props.C16
 import Cjet.Props.C17
 import Cjet.Props.C18
 import Cjet.Props.Evloop
+import Cjet.Props.Cjson
 
 namespace Cjet.Props.C06
 
@@ -80,5 +81,17 @@ theorem evloop_use_after_remove_before_fix : type_of% @Cjet.Props.Evloop.no_call
 theorem evloop_calls_are_for_the_harvested_event : type_of% @Cjet.Props.Evloop.calls_are_for_the_harvested_event := @Cjet.Props.Evloop.calls_are_for_the_harvested_event
 theorem evloop_pending_cleared_between_batches : type_of% @Cjet.Props.Evloop.pending_cleared_between_batches := @Cjet.Props.Evloop.pending_cleared_between_batches
 theorem evloop_remove_outside_dispatch_touches_no_array : type_of% @Cjet.Props.Evloop.remove_outside_dispatch_touches_no_array := @Cjet.Props.Evloop.remove_outside_dispatch_touches_no_array
+
+/-! ### JSON text layer (vendored cJSON.c): for every byte string the parser reads only below the length it was given, parse_string writes within its allocation, recursion is bounded by the nesting limit -/
+
+theorem json_parse_reads_in_bounds : type_of% @Cjet.Props.Cjson.parse_reads_in_bounds := @Cjet.Props.Cjson.parse_reads_in_bounds
+theorem json_parse_reads_in_bounds_as_built : type_of% @Cjet.Props.Cjson.parse_reads_in_bounds_as_built := @Cjet.Props.Cjson.parse_reads_in_bounds_as_built
+theorem json_parse_overread_before_fix : type_of% @Cjet.Props.Cjson.parse_reads_in_bounds_counterexample_before_fix := @Cjet.Props.Cjson.parse_reads_in_bounds_counterexample_before_fix
+theorem json_parse_string_reads_in_bounds : type_of% @Cjet.Props.Cjson.parse_string_reads_in_bounds := @Cjet.Props.Cjson.parse_string_reads_in_bounds
+theorem json_parse_hex4_reads_in_bounds : type_of% @Cjet.Props.Cjson.parse_hex4_reads_in_bounds := @Cjet.Props.Cjson.parse_hex4_reads_in_bounds
+theorem json_parse_end_in_bounds : type_of% @Cjet.Props.Cjson.parse_end_in_bounds := @Cjet.Props.Cjson.parse_end_in_bounds
+theorem json_parse_string_writes_in_bounds : type_of% @Cjet.Props.Cjson.parse_string_writes_in_bounds := @Cjet.Props.Cjson.parse_string_writes_in_bounds
+theorem json_parse_total : type_of% @Cjet.Props.Cjson.parse_total := @Cjet.Props.Cjson.parse_total
+theorem json_nesting_bounded : type_of% @Cjet.Props.Cjson.nesting_bounded := @Cjet.Props.Cjson.nesting_bounded
 
 end Cjet.Props.C06
